@@ -28,7 +28,7 @@ COVERAGE_RUNS = ('orders-1d', 'neighbors', 'couplings-1d', 'helical', 'derive') 
 BASE = dict(Classes=set(), MaxL=3, MaxLx=2, MaxLy=2, NLegs={3}, MaxN=12, MaxShift=1, BcMode='all',
             BcMpsSet={'finite', 'infinite'}, OrderMode='basic', PermMults={7}, Queries=set(), DxCap=4, MultiMod=7,
             MultiRes=0, BFMaxN=16, MaxRemove=1, MaxAdd=1, IrrMod=1, IrrRes=0, NLegSpacing='squeezed',
-            DxExtra=0, EnlargeSet=set(), GroupSet=set())
+            DxExtra=0, EnlargeSet=set(), EnlargeVia={'copy'}, GroupSet=set())
 ALLQ = {'index', 'couplings', 'multi', 'neighbors', 'values'}
 REG1D = {'Chain', 'Ladder', 'NLegLadder'}
 FMT = {'finite', 'infinite', 'segment'}
@@ -81,7 +81,7 @@ def groups(tier, seed):
         # enlarge_mps_unit_cell / with_grouped_sites applied to built lattices of every class, all queries again
         add('derive', Classes={'Chain', 'Ladder', 'Square', 'Honeycomb', 'Multi', 'Irregular', 'Helical'}, MaxL=3, MaxN=6,
             BcMode='periodic', Queries=ALLQ - {'neighbors'}, DxCap=1, MultiMod=401, IrrMod=61, PermMults=set(),
-            EnlargeSet={2}, GroupSet={2, 3})
+            EnlargeSet={2}, EnlargeVia={'copy', 'segment'}, GroupSet={2, 3})
     else:
         add('orders-1d', Classes=REG1D, MaxL=6, NLegs={3, 4}, MaxN=24, BcMode='periodic', OrderMode='all', PermMults=pm2,
             Queries={'index', 'values'}, BcMpsSet=FMT)
@@ -102,7 +102,7 @@ def groups(tier, seed):
         add('helical', Classes={'Helical'}, MaxLx=3, MaxLy=3, MaxN=27, Queries=ALLQ, MultiMod=61, BFMaxN=12)
         add('derive', Classes={'Chain', 'Ladder', 'NLegLadder', 'Square', 'Honeycomb', 'Kagome', 'Multi', 'Irregular', 'Helical'},
             MaxL=4, MaxLx=3, MaxLy=2, MaxN=12, BcMpsSet=FMT, Queries=ALLQ - {'neighbors'}, DxCap=2, MultiMod=101, IrrMod=41,
-            PermMults=set(), EnlargeSet={2, 3}, GroupSet={2, 3}, BFMaxN=12)
+            PermMults=set(), EnlargeSet={2, 3}, EnlargeVia={'inplace', 'copy', 'segment'}, GroupSet={2, 3}, BFMaxN=12)
     return g
 
 
@@ -188,6 +188,15 @@ class Replayer:
         if 'multi_ignores_simple_order' in flags:
             # reported, then the replay goes on with the intended order (set by harness/lattice.py)
             self.fail(st, 'build', 'multi-ignores-simple-order', flags['multi_ignores_simple_order'], exp.tolist())
+        # deriving a lattice (enlarged copy, segment, grouped sites) leaves the original and the lattices it is built on
+        # unchanged: same observable state as before, and still the order of the parent case of the spec
+        if 'original_changed' in flags:
+            self.fail(st, 'build', 'original-changed', flags['original_changed'], 'unchanged', what=flags['original_changed']['what'],
+                      via=cfg.get('via', 'none'))
+        elif 'porder' in st['last'] and 'original_order' in flags and flags['original_order'] != [list(x) for x in st['last']['porder']]:
+            self.fail(st, 'build', 'original-order', flags['original_order'], st['last']['porder'], via=cfg.get('via', 'none'))
+        if lat.bc_MPS != cfg['bcmps']:
+            return self.fail(st, 'build', 'bc_MPS', lat.bc_MPS, cfg['bcmps'])
         if lat.N_sites != len(exp):
             return self.fail(st, 'build', 'N_sites', int(lat.N_sites), len(exp))
         if cfg['ord']['kind'] != 'perm':
